@@ -30,7 +30,7 @@ theorem KInv_frame {s s' : State} {u : Nat} {p : Pc} (x : Ext s s' u p) {b e j :
   refine ⟨by rw [x.cur]; exact h1, h2, h3, Nat.le_trans h4 x.cap, ?_⟩
   intro i hb hj
   obtain ⟨ha, hq⟩ := h5 i hb hj
-  refine ⟨?_, x.acqp i hq⟩
+  refine ⟨?_, hq.imp (x.acqp i) (x.seen i)⟩
   rw [x.stNZ i (by rw [ha]; exact stP_ne)]; exact ha
 
 theorem WInv_frame {s s' : State} {u : Nat} {p : Pc} (x : Ext s s' u p) {sv b pe e j : Nat} (hp : sv = stPublished → p.publishing = true)
@@ -102,7 +102,7 @@ theorem TInv_frame {s s' : State} {u : Nat} {p : Pc} (x : Ext s s' u p) (h : TIn
     refine ⟨by rw [x.cur]; exact h1, h2, ?_, ?_⟩
     · intro i hb hm
       obtain ⟨ha, hq⟩ := h3 i hb hm
-      exact ⟨by rw [x.stNZ i (by rw [ha]; exact stP_ne)]; exact ha, x.acqp i hq⟩
+      exact ⟨by rw [x.stNZ i (by rw [ha]; exact stP_ne)]; exact ha, hq.imp (x.acqp i) (x.seen i)⟩
     · intro hm
       rw [x.stNZ _ (by rw [h4 hm]; exact stC_ne)]; exact h4 hm
   | kRet b e m =>
